@@ -101,6 +101,53 @@ class options(object):
         self.da.rcParams.update(self.old)
 
 
+def set_tols(obj, seed, counter=None):
+    """a look-up tolerance (`Axis.tol`, used by a[1.04]-style indexing) on about one numeric axis in five: operations that match labels
+    exactly - reindexing, alignment, arithmetic, stack / concatenate - must not be affected by it"""
+    import zlib
+    n = 0
+    for ax in obj.axes:
+        v = getattr(ax, 'values', None)
+        i = zlib.crc32(str(ax.name).encode())          # (by name: a Dataset and the free-standing twins of its variables get the same ones)
+        if v is not None and getattr(v, 'dtype', None) is not None and v.dtype.kind in 'iuf' and type(ax).__name__ == 'Axis' and (seed + 3 * i) % 5 == 0:
+            ax.tol = [0.3, 0.6, 1.5][(seed + i) % 3]
+            n += 1
+    if counter is not None and n:
+        counter['axes-with-lookup-tolerance'] += n
+    return obj
+
+
+def set_fillattrs(a, seed, counter=None):
+    """one operand in five declares a missing value in its metadata (as arrays read from netCDF files do): alignment, reindexing and
+    arithmetic fill with NaN (or the fill value asked for) all the same"""
+    from .. import monitors
+    if seed % 5 == 0 and is_da(a):
+        a.attrs.update(monitors.FILL_ATTRS)
+        if counter is not None:
+            counter['operands-declaring-a-missing-value'] += 1
+    return a
+
+
+def build_under_option(sp, counter=None, **kw):
+    """gen.build(sp); one array in six is constructed while the session option `indexing.by` is 'position' (restored right after) and
+    so remembers that mode for its own [] indexing.  Only for workloads whose operation is not [] / take indexing: reindexing,
+    reductions, interpolation ... find labels the same way whatever that mode."""
+    import zlib
+    from .. import gen, boot
+    da = boot.boot()
+    if zlib.crc32(repr(sp["labels"]).encode()) % 6 != 0:
+        return gen.build(sp, **kw)
+    old = da.rcParams['indexing.by']
+    da.rcParams['indexing.by'] = 'position'
+    try:
+        a = gen.build(sp, **kw)
+    finally:
+        da.rcParams['indexing.by'] = old
+    if counter is not None:
+        counter['arrays-built-under-position-indexing'] += 1
+    return a
+
+
 def array_args(*objs):
     """the ndarrays / DimArrays / Axis objects found in the arguments of a call (index arrays, masks, right-hand sides, label
     vectors): "any array passed to it" in C15's sense, to be listed among the operands that M-IMM watches"""
